@@ -215,6 +215,23 @@ pub fn dict_labels() -> Vec<Bytes> {
     v
 }
 
+/// strings of the sources that read as a (relative) domain name: all their dot-separated pieces are labels
+pub fn dict_names() -> Vec<AName> {
+    let mut v: Vec<AName> = Vec::new();
+    for s in &dict().strs {
+        let pieces: Vec<&[u8]> = s.split(|c| *c == b'.').filter(|p| !p.is_empty()).collect();
+        if !pieces.is_empty() && pieces.iter().all(|p| p.len() <= 63 && p.iter().all(|c| c.is_ascii_graphic())) {
+            v.push(AName(pieces.iter().map(|p| Bytes(p.to_vec())).collect()));
+        }
+    }
+    v.sort();
+    v.dedup();
+    if v.is_empty() {
+        v.push(AName::from_strs(&["local"]));
+    }
+    v
+}
+
 pub fn dict_strings() -> Vec<Bytes> {
     let mut v: Vec<Bytes> = dict().strs.iter().map(|s| Bytes(s.clone())).collect();
     if v.is_empty() {
